@@ -40,6 +40,7 @@ def dispatch (op : String) (args : List String) : Out :=
   | "jenc" => runP opJenc args
   | "jquote" => runP opJquote args
   | "jdec" => runP opJdec args
+  | "jdecf" => runP opJdec args
   | "getjson" => runP opGetJson args
   | "bread" => runP opBread args
   | "opts" => runP opOpts args
